@@ -28,10 +28,10 @@ int vp_prog(int i) { return i == 0 ? SA : SB; }
 void vp_thr_sa(stream_t* s, unsigned* hint, isolation_type iso, d1::task* t0, d1::task* t1) { STREAM_OP(SA, 0) }
 void vp_thr_sb(stream_t* s, unsigned* hint, isolation_type iso, d1::task* t0, d1::task* t1) { STREAM_OP(SB, 1) }
 
-// ---- sequential: construction, pre-state through the real push, final drain through the real pop, inspection
+// ---- sequential: construction, pre-state through the real push, final drain through the real try_pop, inspection
 void vp_stream_init(stream_t* s) { new (s) stream_t(); s->initialize(2); }
 void vp_seq_push(stream_t* s, unsigned* hint, d1::task* t) { s->push(t, subsequent_lane_selector(*hint)); }
-d1::task* vp_seq_pop(stream_t* s, unsigned* hint) { return s->pop(preceding_lane_selector(*hint)); }
+d1::task* vp_seq_try_pop(stream_t* s, unsigned lane) { return s->try_pop(lane); }   // what pop() iterates over the lanes
 unsigned long vp_stream_population(stream_t* s) { return s->population.load(std::memory_order_relaxed); }
 unsigned vp_stream_lanes(stream_t* s) { return s->N; }
 void* vp_lane_queue(stream_t* s, unsigned i) { return &s->lanes[i].my_queue; }
